@@ -18,7 +18,7 @@ pub fn property() -> Property {
     Property {
         id: "C15",
         level: "exploration",
-        rule: "family `tunnel` (Lab-S end to end): create_udp_proxy -> real client -> TLS -> real server -> UDP recorder on loopback; datagram sizes from {1, 2, 3, 254-258, 1024, 1472, 8190-8194, 16382-16386, 32767, 32768, 65000, 65506, 65507} with keyed contents, sequences in both directions (0-3 replies of other sizes per request), strictly lock-step so that socket buffers cannot drop anything; a decoy UDP recorder must stay silent. Family `relay` (server side, controlled fragmentation): the public handle_udp_over_tcp fed a reference UDP-over-TCP byte stream (request header + u16-prefixed packets) through a stream channel cut at generated positions (inside the 2-byte prefix, inside the request, byte at a time, several packets in one chunk); datagrams observed at a loopback UDP socket, replies injected at the relay's socket and read back from the stream's writer channel under the reference framing. Oracles: one datagram in => exactly one identical datagram out, in order, at the requested target / at the application's socket; nothing else delivered to anyone. Non-trivial = size >= 256, or a cut inside a length prefix, or >= 2 packets back-to-back in one chunk. Distinct = distinct serialized case. Three tunnel cases in ten send a stray datagram from a third socket to the server's relay socket after exchange k: what becomes of that datagram is not judged, but every later datagram of the application must still arrive at the requested target and the third socket must receive nothing. One tunnel case in four closes the target's socket after exchange k, sends one datagram into the closed port (lost: nothing can deliver it), brings the target back on the same address and goes on: every later datagram must be delivered. One tunnel case in four lets the application go on from a new socket (same address, another port) after exchange k: answers must follow it there and the socket it left gets nothing more. Family `backlog` (Lab-S, own server and client per case): a sibling stream made through the library API queues 0 / 8 / 200 / 1500 chunks of 16 KiB with send_data towards a sink, the association is made right behind it (it takes the same, pooled session) and 1-3 datagrams are sent at once: they arrive at the target exactly, in order, and the sibling's upload completes.",
+        rule: "family `tunnel` (Lab-S end to end): create_udp_proxy -> real client -> TLS -> real server -> UDP recorder on loopback; datagram sizes from {1, 2, 3, 254-258, 1024, 1472, 8190-8194, 16382-16386, 32767, 32768, 65000, 65506, 65507} with keyed contents, sequences in both directions (0-3 replies of other sizes per request), strictly lock-step so that socket buffers cannot drop anything; a decoy UDP recorder must stay silent. Family `relay` (server side, controlled fragmentation): the public handle_udp_over_tcp fed a reference UDP-over-TCP byte stream (request header + u16-prefixed packets) through a stream channel cut at generated positions (inside the 2-byte prefix, inside the request, byte at a time, several packets in one chunk); datagrams observed at a loopback UDP socket, replies injected at the relay's socket and read back from the stream's writer channel under the reference framing. Oracles: one datagram in => exactly one identical datagram out, in order, at the requested target / at the application's socket; nothing else delivered to anyone. Non-trivial = size >= 256, or a cut inside a length prefix, or >= 2 packets back-to-back in one chunk. Distinct = distinct serialized case. Three tunnel cases in ten send a stray datagram from a third socket to the server's relay socket after exchange k: what becomes of that datagram is not judged, but every later datagram of the application must still arrive at the requested target and the third socket must receive nothing. One tunnel case in four closes the target's socket after exchange k, sends one datagram into the closed port (lost: nothing can deliver it), brings the target back on the same address and goes on: every later datagram must be delivered. One tunnel case in four lets the application go on from a new socket (same address, another port) after exchange k: answers must follow it there and the socket it left gets nothing more. Family `backlog` (Lab-S, own server and client per case): a sibling stream made through the library API queues 0 / 8 / 200 / 1500 chunks of 16 KiB with send_data towards a sink, the association is made right behind it (it takes the same, pooled session) and 1-3 datagrams are sent at once: they arrive at the target exactly, in order, and the sibling's upload completes. In the tunnel family the target sends the 2-4 replies to one request back to back in four cases in ten (several datagrams wait on the server's relay socket at once), and in one case in seven the application sends all its datagrams back to back; such bursts are compared as multisets (each datagram exactly once, boundaries and contents intact, order not judged) and only made where they fit the socket buffers (sum of sizes <= 60000).",
         assumptions: vec![
             "kernel loopback delivers UDP datagrams up to 65507 bytes in lock-step without loss",
             "reference UDP-over-TCP framing (sing-box v2 connect format) in this module",
@@ -53,7 +53,19 @@ pub struct TunnelCase {
     /// socket gets nothing more
     #[serde(default)]
     pub new_app_socket_after: Option<u8>,
+    /// the target sends the replies to one request back to back (several datagrams are queued on the
+    /// server's relay socket at once) instead of waiting for each to arrive; they are compared as a
+    /// multiset (order among datagrams is not promised). Only where the burst fits the socket buffers.
+    #[serde(default)]
+    pub burst_replies: bool,
+    /// the application sends all its datagrams back to back (queued on the client's association
+    /// socket at once); no replies in this mode. Only where the burst fits the socket buffers.
+    #[serde(default)]
+    pub burst_requests: bool,
 }
+
+/// what a burst may add up to so that no socket buffer on the way can overflow
+const BURST_BUDGET: usize = 60_000;
 
 pub struct TunnelFam;
 
@@ -71,8 +83,14 @@ impl Family for TunnelFam {
         "tunnel"
     }
     fn strategy(&self, _tier: Tier) -> BoxedStrategy<TunnelCase> {
-        (proptest::collection::vec((size_strategy(), proptest::collection::vec(size_strategy(), 0..3)), 1..8), proptest::bool::weighted(0.25), proptest::option::weighted(0.3, 0u8..3), proptest::option::weighted(0.25, 0u8..3), proptest::option::weighted(0.25, 0u8..3))
-            .prop_map(|(exchanges, v6_target, stranger_after, target_restart_after, new_app_socket_after)| TunnelCase { exchanges, v6_target, stranger_after, target_restart_after, new_app_socket_after })
+        (proptest::collection::vec((size_strategy(), proptest::collection::vec(size_strategy(), 0..5)), 1..8), proptest::bool::weighted(0.25), proptest::option::weighted(0.3, 0u8..3), proptest::option::weighted(0.25, 0u8..3), proptest::option::weighted(0.25, 0u8..3), proptest::bool::weighted(0.4), proptest::bool::weighted(0.15))
+            .prop_map(|(exchanges, v6_target, stranger_after, target_restart_after, new_app_socket_after, burst_replies, burst_requests)| {
+                if burst_requests {
+                    TunnelCase { exchanges, v6_target, stranger_after: None, target_restart_after: None, new_app_socket_after: None, burst_replies: false, burst_requests }
+                } else {
+                    TunnelCase { exchanges, v6_target, stranger_after, target_restart_after, new_app_socket_after, burst_replies, burst_requests }
+                }
+            })
             .boxed()
     }
     fn case_budget_s(&self) -> u64 {
@@ -105,6 +123,26 @@ impl Family for TunnelFam {
                 let stranger = UdpSocket::bind(SocketAddr::new(if target.addr.is_ipv6() { IpAddr::V6(std::net::Ipv6Addr::LOCALHOST) } else { IpAddr::V4(worker_ip_n(22)) }, 0)).await.map_err(|e| infra(format!("stranger udp bind: {e}")))?;
                 let mut stray_sent = false;
                 let mut restarted = false;
+                if case.burst_requests && case.exchanges.len() >= 2 && case.exchanges.iter().map(|e| e.0 + 64).sum::<usize>() <= BURST_BUDGET {
+                    // everything the application has to say, back to back
+                    let mut sent: Vec<Vec<u8>> = Vec::new();
+                    for (k, (size, _)) in case.exchanges.iter().enumerate() {
+                        let payload = keyed(k as u32, 6, 0, *size);
+                        app.send_to(&payload, assoc).await.map_err(|e| infra(format!("app send of {size} bytes: {e}")))?;
+                        sent.push(payload);
+                    }
+                    let n = sent.len();
+                    let arrived = wait_until(10_000, || target.count() >= n).await;
+                    tokio::time::sleep(Duration::from_millis(50)).await;
+                    let mut got: Vec<Vec<u8>> = target.received.lock().unwrap().iter().map(|g| g.1.clone()).collect();
+                    let sizes_got: Vec<usize> = got.iter().map(|g| g.len()).collect();
+                    let sizes_sent: Vec<usize> = sent.iter().map(|g| g.len()).collect();
+                    got.sort();
+                    sent.sort();
+                    ensure!(arrived && got == sent, "C15.one", "the application sent {n} datagrams back to back (sizes {sizes_sent:?}); the target received {} datagrams (sizes {sizes_got:?}){}", got.len(), if sizes_got.len() == n { " - boundaries or contents differ" } else { "" });
+                    ensure!(decoy.count() == 0, "C15.none", "a datagram was delivered to a socket nobody asked for");
+                    return Ok(());
+                }
                 for (k, (size, replies)) in case.exchanges.iter().enumerate() {
                     let payload = keyed(k as u32, 6, 0, *size);
                     let before = target.count();
@@ -124,15 +162,40 @@ impl Family for TunnelFam {
                     relay_addr = Some(got[0].0);
                     ensure!(decoy.count() == 0, "C15.none", "a datagram was delivered to a socket nobody asked for");
                     // replies from the target
-                    for (j, rs) in replies.iter().enumerate() {
-                        let rp = keyed(k as u32 * 16 + j as u32, 7, 0, *rs);
-                        target.sock.send_to(&rp, relay_addr.unwrap()).await.map_err(|e| infra(format!("target reply: {e}")))?;
-                        match recv_dgram(&app, 10_000).await {
-                            Some((d, from)) => {
-                                ensure!(d == rp, "C15.one", "reply #{j} to datagram #{k} ({rs} bytes) arrived with {} bytes / altered contents", d.len());
-                                ensure!(from == assoc, "C15.one", "reply came from {from}, the association is {assoc}");
+                    if case.burst_replies && replies.len() >= 2 && replies.iter().map(|r| r + 64).sum::<usize>() <= BURST_BUDGET {
+                        // back to back: several datagrams wait on the relay's socket at once
+                        let mut sent: Vec<Vec<u8>> = Vec::new();
+                        for (j, rs) in replies.iter().enumerate() {
+                            let rp = keyed(k as u32 * 16 + j as u32, 7, 0, *rs);
+                            target.sock.send_to(&rp, relay_addr.unwrap()).await.map_err(|e| infra(format!("target reply: {e}")))?;
+                            sent.push(rp);
+                        }
+                        let mut got: Vec<Vec<u8>> = Vec::new();
+                        while got.len() < sent.len() {
+                            match recv_dgram(&app, 5_000).await {
+                                Some((d, from)) => {
+                                    ensure!(from == assoc, "C15.one", "reply came from {from}, the association is {assoc}");
+                                    got.push(d);
+                                }
+                                None => break,
                             }
-                            None => return Err(Fail::plain("C15.one", format!("reply #{j} to datagram #{k} ({rs} bytes) never reached the application"))),
+                        }
+                        let sizes_got: Vec<usize> = got.iter().map(|g| g.len()).collect();
+                        got.sort();
+                        sent.sort();
+                        ensure!(got == sent, "C15.one", "the target answered datagram #{k} with {} datagrams back to back (sizes {replies:?}); the application received {} datagrams (sizes {sizes_got:?}){}", sent.len(), got.len(), if got.len() == sent.len() { " - boundaries or contents differ" } else { "" });
+                        // (the rest of the exchange as usual)
+                    } else {
+                        for (j, rs) in replies.iter().enumerate() {
+                            let rp = keyed(k as u32 * 16 + j as u32, 7, 0, *rs);
+                            target.sock.send_to(&rp, relay_addr.unwrap()).await.map_err(|e| infra(format!("target reply: {e}")))?;
+                            match recv_dgram(&app, 10_000).await {
+                                Some((d, from)) => {
+                                    ensure!(d == rp, "C15.one", "reply #{j} to datagram #{k} ({rs} bytes) arrived with {} bytes / altered contents", d.len());
+                                    ensure!(from == assoc, "C15.one", "reply came from {from}, the association is {assoc}");
+                                }
+                                None => return Err(Fail::plain("C15.one", format!("reply #{j} to datagram #{k} ({rs} bytes) never reached the application"))),
+                            }
                         }
                     }
                     if case.new_app_socket_after == Some(k as u8) {
@@ -196,6 +259,8 @@ impl Family for TunnelFam {
         out.class_if(case.exchanges.iter().any(|(s, _)| *s >= 65000), "near-udp-max");
         out.class_if(case.exchanges.iter().any(|(_, r)| r.len() >= 2), "several-replies");
         out.class_if(case.v6_target, "ipv6-target");
+        out.class_if(case.burst_replies && case.exchanges.iter().any(|(_, r)| r.len() >= 2 && r.iter().map(|x| x + 64).sum::<usize>() <= BURST_BUDGET && r.iter().any(|x| *x != r[0])), "replies-of-different-sizes-back-to-back");
+        out.class_if(case.burst_requests && case.exchanges.len() >= 2 && case.exchanges.iter().map(|e| e.0 + 64).sum::<usize>() <= BURST_BUDGET, "requests-back-to-back");
         out.class_if(case.stranger_after.is_some_and(|k| (k as usize) + 1 < case.exchanges.len()), "stray-datagram-then-more-traffic");
         out.class_if(case.target_restart_after.is_some_and(|k| (k as usize) + 1 < case.exchanges.len()), "target-away-for-a-moment-then-more-traffic");
         out.class_if(case.new_app_socket_after.is_some_and(|k| (k as usize) + 1 < case.exchanges.len()), "application-moves-to-a-new-socket");
